@@ -249,11 +249,12 @@ def run(ctx):
     d = os.path.join(ctx.work, "c07_plink")
     os.makedirs(d)
     bed = os.path.join(REPO, "tests/data/plink/plink_sim_10s_100v_10pmiss.bed")
-    for workers, vcs in ((4, 10), (2, 7), (8, 3))[: ctx.n(2, 3)]:
-        out = os.path.join(d, f"p{workers}.vcz")
-        log = os.path.join(d, f"p{workers}.log")
+    # incl. fewer variant chunks than workers (3 chunks / 4 workers, 2 / 8, 1 / 3)
+    for workers, vcs in ((4, 10), (4, 40), (8, 64), (2, 7), (8, 3), (3, 100))[: ctx.n(3, 6)]:
+        out = os.path.join(d, f"p{workers}_{vcs}.vcz")
+        log = os.path.join(d, f"p{workers}_{vcs}.log")
         src = f"from bio2zarr import plink\nif __name__ == '__main__':\n    plink.convert({bed!r}, {out!r}, worker_processes={workers}, variants_chunk_size={vcs}, samples_chunk_size=4)"
-        script = os.path.join(d, f"run{workers}.py")
+        script = os.path.join(d, f"run{workers}_{vcs}.py")
         open(script, "w").write(src)
         p = subprocess.run([PY, script], env=dict(ENV, VERIF_AUDIT_LOG=log, VERIF_AUDIT_ROOT=d, VERIF_MARK_TASKS="1"), capture_output=True, text=True, timeout=600)
         doc = dict(phase="plink", workers=workers, variants_chunk_size=vcs)
@@ -301,7 +302,7 @@ def run(ctx):
         shared = {k: v for k, v in written.items() if len(v) > 1}
         if shared:
             ctx.fail(doc, dict(chunks=sorted(shared)[:4]), "two PLINK slices wrote the same Zarr chunk")
-        ref = os.path.join(d, f"ref{workers}.vcz")
+        ref = os.path.join(d, f"ref{workers}_{vcs}.vcz")
         plink.convert(bed, ref, worker_processes=0, variants_chunk_size=vcs, samples_chunk_size=4)
         if snap_vcz(out) != snap_vcz(ref):
             ctx.fail(doc, {}, "the store produced by concurrent PLINK slices differs from the sequential one")
